@@ -84,3 +84,21 @@ def register(reg, S):
         locals={"instrument_tracks": S["TrackMap"]}, callee_modes=modes, call_site=False,
         callee_ensures=dict(slim, **{P: ["one-entry", "each-section"]}),
         props=["C06", "C13"]))
+
+    # ------------------------------------------------------------------ safety instances (C18)
+    reg.add(Contract(
+        C + "Chart.from_file", inst="safety", mode="safety",
+        params=dict(cls=_cls(C + "Chart"), fp=Conc(lambda: _FP, "text-file"), want_tracks=WT),
+        result=S["Chart"], ghost_params=dict(g_lines=SeqS(STR)), pure=False, silent=False,
+        requires=[("tokens-bounded", tokens), ("instrument-tokens-bounded", itok)],
+        raise_allowed={"ValueError": "True", "RegexNotMatchError": "True", "MissingRequiredField": "True"},
+        loops=trivial, locals={"instrument_tracks": S["TrackMap"]},
+        callee_ensures=slim,
+        props=["C18"]))
+    reg.add(Contract(
+        C + "Chart.from_filepath", inst="safety", mode="safety",
+        params=dict(cls=_cls(C + "Chart"), path=Conc(lambda: "some.chart", "path"), want_tracks=WT),
+        result=S["Chart"], ghost_params=dict(g_lines=SeqS(STR)), pure=False, silent=False,
+        requires=[("tokens-bounded", tokens), ("instrument-tokens-bounded", itok)],
+        raise_allowed={"ValueError": "True", "RegexNotMatchError": "True", "MissingRequiredField": "True"},
+        props=["C06", "C18"]))
